@@ -21,6 +21,41 @@ CLAIMED = {
         "text": "C04_aligned / C04_finger_aligned / C04_actual_cfg_ok / C04_ctor_refuses: every pointer handed out is aligned to the request and to MIN_ALIGN; the constants exported by the built crate are re-checked on every run (ConstsActualOk.v); constructors refuse exactly the unsupported MIN_ALIGN values (checked against the real constructors for 16 values of MIN_ALIGN). " + ARENA_TEXT,
         "design_ref": "DESIGN.md §6 C04",
     },
+    "C03": {
+        "technique": "Coq proof (structural case analysis of every operation + chunk disjointness invariant) + allocator-ledger correspondence",
+        "text": "C03_frees / C03_no_early_free / C03_held_disjoint_from_static: only reset and drop give blocks back, exactly the ones they should, each recorded with the layout it was requested with; held blocks are pairwise disjoint and disjoint from the static. " + ARENA_TEXT + "The tracking allocator's ledger (apply_frees, extracted) is checked on every run, under fault plans.",
+        "design_ref": "DESIGN.md §6 C03",
+    },
+    "C06": {
+        "technique": "Coq proof (state after reset; induction over request lists for full-capacity reuse) + correspondence",
+        "text": "C06_reset_state / C06_chunkless_noop / C06_full_capacity_reusable / C06_sp_reset_ok. " + ARENA_TEXT,
+        "design_ref": "DESIGN.md §6 C06",
+    },
+    "C07": {
+        "technique": "Coq proof (induction over the candidate loop of the transliterated sizing policy) + request-by-request correspondence of the policy with the crate",
+        "text": "C07_never_exceeds / C07_held_stays_under_limit / C07_fits_in_chunk_succeeds / C07_none_is_transparent are proved of the transliterated policy of alloc_layout_slow; the policy is compared with the crate request by request (sizes, alignments, order, outcome) on every run, and sp_limit_ok is evaluated on every chunk the implementation obtains under a limit. " + ARENA_TEXT,
+        "design_ref": "DESIGN.md §6 C07",
+    },
+    "C09": {
+        "technique": "Coq proof (termination of the candidate loop by a halving measure, absence of the overflow panics, error-is-no-op) + correspondence under fault plans with a hang guard",
+        "text": "C09_try_total / C09_loop_terminates / C09_err_is_noop. " + ARENA_TEXT + "Every fallible call is run under catch_unwind and fault plans (fail k-th, fail above a size, fail all); a call that does not return is detected by the hang guard / timeout. Partial: the infallible-iff-fallible clause is by construction of the model (one operation, two result mappings) and checked only by correspondence.",
+        "design_ref": "DESIGN.md §6 C09",
+    },
+    "C10": {
+        "technique": "Coq proof (iteration shape and containment from the safety invariant) + correspondence",
+        "text": "C10_iter_shape / C10_live_contained / C10_slices_disjoint. " + ARENA_TEXT + "Partial: the 'no other bytes' clause for uniform allocations is decided on the implementation only (sp_iter_ok + exact chunk lists compared with the model).",
+        "design_ref": "DESIGN.md §6 C10",
+    },
+    "C18": {
+        "technique": "Coq proof (capacity lemmas by induction over request lists; doubling of the first candidate of the sizing policy) + correspondence of request sizes",
+        "text": "C18_capacity_honoured / C18_capacity_exact / C18_with_capacity_size / C18_growth_doubles. " + ARENA_TEXT + "Partial: the logarithmic bound on request counts, the constant-factor bound on held memory and the Vec/String reservation clauses are not yet theorems.",
+        "design_ref": "DESIGN.md §6 C18",
+    },
+    "C20": {
+        "technique": "Coq proof (frame/locality/projection over interleavings of several arenas; write footprint inside own chunks) + hook-observed finger stores compared with the model",
+        "text": "C20_frame / C20_local / C20_projection / C20_footprint_owned / C20_chunkless_writes_nothing. " + ARENA_TEXT + "The implementation's finger stores are reported by the --cfg bumpalo_verif hook and checked by sp_stores_owned on every operation. That disjoint write footprints imply data-race freedom rests on the Rust memory model (trusted).",
+        "design_ref": "DESIGN.md §6 C20",
+    },
     "C08": {
         "technique": "Coq proof (invariant by induction over operation histories) + model/implementation correspondence",
         "text": "Theorems C08_accounting / C08_zero_when_nothing_held / C08_changes_only_on_acquire_release are proved in Coq for every history of the arena model and every behaviour of the global allocator; the model is tied to /repo on every run by differential execution (extracted model vs. the real crate, debug and release, 5 MIN_ALIGNs) and the extracted spec predicate sp_accounting is evaluated on the implementation's own getters against the tracking allocator's ledger.",
